@@ -267,7 +267,7 @@ func runCtx(m *model.Model, s *ob.Set) {
 		}
 	}
 	if nOps < 3 {
-		model.Fatal("CTX: only %d operator methods with a z parameter found", nOps)
+		model.Blind("CTX: only %d operator methods with a z parameter found", nOps)
 	}
 }
 
